@@ -6,6 +6,7 @@ import NutsProofs.Props.C10
 import NutsProofs.Lemmas.ReopenObs
 import NutsProofs.Lemmas.ReopenAll
 import NutsProofs.Pins.Appliers
+import NutsProofs.Facts
 namespace NutsProofs.C08
 open Nuts Nuts.Model Nuts.Model.DB NutsProofs
 
@@ -145,5 +146,14 @@ rotation, and the scan of the data files at `Open` are on this run, line for lin
 (the usual way to break "reopen preserves every result") changes these lines. -/
 theorem C08_appliers_regenerated : NutsGen.F.applierStmts = NutsProofs.Facts.expectedApplierStmts :=
   NutsProofs.Facts.appliers_ok
+
+/-- **regenerated constants.** The record flags, structure codes, status values, separators and the header size
+the model replays with are the constants of the source on this run. -/
+theorem C08_constants_regenerated :
+    NutsProofs.Facts.lookup NutsGen.F.consts "DataZPopMinFlag" = some (Nuts.Model.DB.flagZPopMin : Nat) ∧
+    NutsProofs.Facts.lookup NutsGen.F.consts "DataStructureList" = some (Nuts.Model.DB.dsList : Nat) ∧
+    (NutsGen.F.sconsts.find? (·.1 == "SeparatorForZSetKey")).map (·.2) = some "|" :=
+  ⟨NutsProofs.Facts.consts_ok.2.2.2.2.2.2.2.2.2.2.2.2.2.1, NutsProofs.Facts.consts_ok.2.2.2.2.2.2.2.2.2.2.2.2.2.2.2.2.2.1,
+   NutsProofs.Facts.separators_ok.2.1⟩
 
 end NutsProofs.C08
